@@ -3,6 +3,7 @@ Theorems: Properties/C01.v.  Correspondence: x/exp/eval.Eval (unfolded evaluator
 (1) the operator x boundary-operand table, (2) extension constructors x literal strings, (3) random trees."""
 import lib
 import gen
+import sx
 from gen import S, lit, case
 
 
@@ -67,6 +68,36 @@ def gen_table(ctx, g):
         add(['like', lit(a), ['pat', S('a'), ['w']]])
         for b in vals[:6]:
             add(['if', lit(a), lit(b), lit(gen.vlong(7))])
+    # sets whose members collide in the internal hash, built in different orders: equal whatever the order (==, contains on sets of sets,
+    # containsAll / containsAny, records holding them)
+    import itertools
+    coll = [gen.vlong(1), gen.vbool(True), gen.vdec(1), gen.vdur(1), gen.vdt(1)]
+    perms = [list(p_) for k_ in (2, 3) for p_ in itertools.permutations(coll[:4], k_)]
+    for p1 in perms:
+        for p2 in perms:
+            if sorted(map(sx.dump, p1)) != sorted(map(sx.dump, p2)) and rng.random() < 0.9:
+                continue
+            if quick and rng.random() < 0.5:
+                continue
+            s1, s2 = gen.vset(p1), gen.vset(p2)
+            add(['eq', lit(s1), lit(s2)])
+            add(['eq', ['mkset'] + [lit(x) for x in p1], ['mkset'] + [lit(x) for x in p2]])
+            add(['contains', lit(gen.vset([s1, gen.vlong(7)])), lit(s2)])
+            add(['containsAll', lit(s1), lit(s2)])
+            add(['eq', lit(gen.vrec([('s', s1)])), lit(gen.vrec([('s', s2)]))])
+            add(['ne', ['mkrec', [S('s'), ['mkset'] + [lit(x) for x in p1]]], lit(gen.vrec([('s', s2)]))])
+    # `&&` / `||` check that BOTH operands are Booleans even when the left one decides nothing: a literal true && x (false || x) with a
+    # non-Boolean x is a type error wherever the result would be consumed (==, contains, a set or record literal, if)
+    C_ = ['var', 'context']
+    for X in (lit(gen.vlong(3)), ['access', C_, S('n')], lit(gen.vstr('yes')), ['var', 'principal'], lit(gen.vset([])), ['access', C_, S('flag')], ['access', C_, S('nosuch')]):
+        for G_ in (['and', lit(gen.vbool(True)), X], ['or', lit(gen.vbool(False)), X], ['and', ['access', C_, S('flag')], X], ['and', lit(gen.vbool(False)), X], ['or', lit(gen.vbool(True)), X]):
+            add(G_)
+            add(['eq', G_, lit(gen.vlong(3))])
+            add(['ne', G_, X])
+            add(['contains', ['mkset', G_], lit(gen.vlong(3))])
+            add(['mkrec', [S('k'), G_]])
+            add(['if', lit(gen.vbool(True)), G_, lit(gen.vlong(0))])
+            add(['eq', ['mkset', G_, G_], ['mkset']])
     # extension functions
     for f in gen.Gen.EXT1:
         for a in vals:
